@@ -22,7 +22,7 @@ structure CtxShR (k : Int) (cx cx' : Ctx) : Prop where
   maxTotal : cx'.p.maxTotal = cx.p.maxTotal
   maxFirstWait : cx'.p.maxFirstWait = cx.p.maxFirstWait
   arrT : cx'.arrT = cx.arrT + k
-  depT : cx.depT = -1 ∧ cx'.depT = -1
+  depT : (cx.depT = -1 ∧ cx'.depT = -1) ∨ (cx.depT ≠ -1 ∧ cx'.depT ≠ -1 ∧ cx'.depT = cx.depT + k)
   transferable : ∀ t, cx'.ds.transferable t = cx.ds.transferable t
   nStops : cx'.ds.nStops = cx.ds.nStops
 
@@ -106,11 +106,19 @@ theorem revFootAcc_shift {k : Int} {cx cx' : Ctx} (h : CtxShR k cx cx') (c : Con
     revFootAcc cx' (shiftConn k c) mw (shR k s) f = shR k (revFootAcc cx c mw s f) := by
   have EA : revAccAccept cx' (shiftConn k c) mw (shR k s) f = revAccAccept cx c mw s f := by
     unfold revAccAccept
-    rw [h.depT.1, h.depT.2, shR_acc, ← h.same.mw]
     have e1 : (shiftConn k c).depStop = c.depStop := rfl
     have e2 : (shiftConn k c).dep - mw = (c.dep - mw) + k := by show c.dep + k - mw = _; omega
-    rw [e1, e2, accAll_shift]
-    simp
+    rw [shR_acc, ← h.same.mw, e1, e2, accAll_shift, nodesAccess_same h.same, h.maxFirstWait]
+    rcases h.depT with ⟨d1, d2⟩ | ⟨d1, d2, d3⟩
+    · rw [d1, d2]; simp
+    · have n1 : decide (cx.depT = -1) = false := by simp [d1]
+      have n2 : decide (cx'.depT = -1) = false := by simp [d2]
+      rw [n1, n2, d3]
+      have a1 : ∀ a : NTD, decide ((shiftConn k c).dep - a.time - mw ≥ cx.depT + k) = decide (c.dep - a.time - mw ≥ cx.depT) := by
+        intro a; apply Bool.eq_iff_iff.2; simp only [decide_eq_true_eq]; show (c.dep + k - a.time - mw ≥ _) ↔ _; constructor <;> intro g <;> omega
+      have a2 : ∀ a : NTD, decide ((shiftConn k c).dep - (cx.depT + k) - a.time ≤ cx.p.maxFirstWait) = decide (c.dep - cx.depT - a.time ≤ cx.p.maxFirstWait) := by
+        intro a; apply Bool.eq_iff_iff.2; simp only [decide_eq_true_eq]; show (c.dep + k - _ - a.time ≤ _) ↔ _; constructor <;> intro g <;> omega
+      simp only [a1, a2]
   unfold revFootAcc
   rw [EA]
   split
@@ -758,7 +766,7 @@ theorem C12_full_accessibility_arrival (ds : Dataset) (p : Params) (k L W : Int)
           (routerLookup (ds.restrict (ds.connSetOf (ds.scenarioOf p))).egress p.maxEgress) (-1) p.time)
         (mkCtx ((shiftDs k ds).restrict ((shiftDs k ds).connSetOf (ds.scenarioOf p))) (shiftP k p) ((shiftDs k ds).connSetOf (ds.scenarioOf p)) []
           (routerLookup (ds.restrict (ds.connSetOf (ds.scenarioOf p))).egress p.maxEgress) (-1) (shiftP k p).time) := by
-      refine ⟨hsame, rfl, rfl, rfl, ⟨rfl, rfl⟩, ?_, ?_⟩
+      refine ⟨hsame, rfl, rfl, rfl, Or.inl ⟨rfl, rfl⟩, ?_, ?_⟩
       · intro t; show ((shiftDs k ds).restrict _).transferable t = _; rw [hrs, transferable_shift]; rfl
       · show ((shiftDs k ds).restrict _).nStops = _; rw [hrs]; rfl
     have htl : TripLists k (ds.restrict (ds.connSetOf (ds.scenarioOf p))) ((shiftDs k ds).restrict ((shiftDs k ds).connSetOf (ds.scenarioOf p))) := by
